@@ -10,7 +10,7 @@
 From Coq Require Import NArith List String Bool.
 From Coq Require Import Strings.Byte.
 From PDL Require Import Base.Bits Lang.Ast Lang.Sexp Analyzer.Schema Sem.RefEncode
-     Proofs.BitfieldEncode Proofs.StaticSize Proofs.StaticSizeArrays Proofs.SchemaEnums Proofs.AnalyzerSchema.
+     Proofs.BitfieldEncode Proofs.StaticSize Proofs.StaticSizeArrays Proofs.SchemaEnums Proofs.AnalyzerSchema Proofs.SizeClasses.
 Import ListNotations.
 Open Scope N_scope.
 
@@ -100,3 +100,23 @@ Theorem C16_the_two_schema_models_agree :
     = mk_schema fl.
 Proof. exact schema_models_agree_padding_checked. Qed.
 Print Assumptions C16_the_two_schema_models_agree.
+
+(** THE CLASSIFICATION (Proofs/SizeClasses.v), reading [field_size] literally: a field is
+    classified DYNAMIC exactly when it has a condition flag, or is a payload / body with a
+    `_size_` field, or an array without static count that has a size or count field, or a
+    typedef / counted array of a type whose total is itself Dynamic (at the leaves: a
+    user-supplied custom field without width, [leaf_total_dynamic_iff]) ... *)
+Theorem C16_dynamic_iff_delimited :
+  forall (sch : schema) (d : decl) (f : field),
+    field_size sch d f = Some SDynamic <-> dyn_shape sch d f.
+Proof. exact field_dynamic_iff. Qed.
+Print Assumptions C16_dynamic_iff_delimited.
+
+(** ... and UNKNOWN exactly when it has no condition and is a payload / body without size
+    field, an array with neither static count nor size / count field, or a typedef / counted
+    array of a type whose total is Unknown: "only when nothing delimits it". *)
+Theorem C16_unknown_iff_nothing_delimits :
+  forall (sch : schema) (d : decl) (f : field),
+    field_size sch d f = Some SUnknown <-> unk_shape sch d f.
+Proof. exact field_unknown_iff. Qed.
+Print Assumptions C16_unknown_iff_nothing_delimits.
